@@ -11,6 +11,7 @@ import (
 	"fmt"
 	"hash"
 	"strconv"
+	"strings"
 
 	"github.com/lestrrat-go/jwx/v2/jwa"
 	"github.com/lestrrat-go/jwx/v2/jwk"
@@ -329,6 +330,95 @@ func genCrypto(r *runner) {
 			}
 		}
 		r.res.Hit("crypto:lengths-0..64:" + alg)
+	}
+	// --- valid ciphertexts from the real Encrypt, then near misses: the paths behind the guards ---
+	nonceFor := func(alg string) int {
+		switch {
+		case strings.HasPrefix(alg, "XC20P"):
+			return 24
+		case strings.HasPrefix(alg, "C20P"), strings.HasSuffix(alg, "GCM"):
+			return 12
+		case strings.HasSuffix(alg, "KW"):
+			return 0
+		}
+		return 16
+	}
+	for _, alg := range kitcrypto.SupportedSymmetricAlgorithms() {
+		kl := rightKeyLen(alg)
+		if kl == 0 {
+			continue
+		}
+		key := keySpec("raw:" + hx(octKeys[kl]))
+		ks := "raw:" + hx(octKeys[kl])
+		for _, n := range []int{0, 1, 15, 16, 17, 24, 32, 40, 64} {
+			pt := r.rnd.Bytes(n)
+			nonce := r.rnd.Bytes(nonceFor(alg))
+			aad := r.rnd.Bytes(n % 3)
+			ct, tag, err := kitcrypto.Encrypt(pt, alg, key, nonce, aad)
+			if err != nil {
+				continue
+			}
+			o := r.do(mk("crypto-decrypt", "alg", alg, "key", ks, "data", hx(ct), "nonce", hx(nonce), "tag", hx(tag), "aad", hx(aad)))
+			if o.Class != clsOK {
+				r.res.Disagree("harness-selfcheck", alg, "Decrypt(Encrypt(x)) succeeds", o.Class)
+			}
+			r.res.Hit("crypto:roundtrip:" + alg)
+			for i := 0; i < r.n(6); i++ {
+				r.do(mk("crypto-decryptsymmetric", "alg", alg, "key", ks, "data", hx(mutate(r.rnd, ct, []byte{0, 1, 16, 255})), "nonce", hx(nonce), "tag", hx(tag), "aad", hx(aad)))
+				r.do(mk("crypto-decryptsymmetric", "alg", alg, "key", ks, "data", hx(ct), "nonce", hx(nonce), "tag", hx(mutate(r.rnd, tag, []byte{0, 255})), "aad", hx(aad)))
+				r.do(mk("crypto-decryptsymmetric", "alg", alg, "key", ks, "data", hx(ct), "nonce", hx(mutate(r.rnd, nonce, []byte{0, 255})), "tag", hx(tag), "aad", hx(aad)))
+			}
+			if strings.HasSuffix(alg, "KW") && len(ct) > 0 {
+				r.do(mk("aeskw-unwrap", "kek", hx(octKeys[kl]), "data", hx(ct)))
+				for i := 0; i < r.n(6); i++ {
+					r.do(mk("aeskw-unwrap", "kek", hx(octKeys[kl]), "data", hx(mutate(r.rnd, ct, []byte{0xa6, 0, 255}))))
+				}
+			}
+		}
+	}
+	for _, kn := range []string{"rsa1024", "rsa2048"} {
+		k := keyByName(kn)
+		priv, pub := "jwk:"+hx(k.JWKPriv), "jwk:"+hx(k.JWKPub)
+		for _, alg := range kitcrypto.SupportedAsymmetricAlgorithms() {
+			pt := r.rnd.Bytes(20)
+			ct, err := kitcrypto.EncryptPublicKey(pt, alg, keySpec(pub), nil)
+			if err != nil {
+				continue
+			}
+			o := r.do(mk("crypto-decryptprivatekey", "alg", alg, "key", priv, "data", hx(ct), "aad", ""))
+			if o.Class != clsOK {
+				r.res.Disagree("harness-selfcheck", alg, "DecryptPrivateKey(EncryptPublicKey(x)) succeeds", o.Class)
+			}
+			for i := 0; i < r.n(4); i++ {
+				r.do(mk("crypto-decryptprivatekey", "alg", alg, "key", priv, "data", hx(mutate(r.rnd, ct, []byte{0, 255})), "aad", ""))
+			}
+			r.do(mk("crypto-decryptprivatekey", "alg", alg, "key", priv, "data", hx(ct), "aad", "01"))
+		}
+	}
+	sigAlgKeys := map[string][]string{"rsa2048": {"RS256", "RS384", "RS512", "PS256", "PS384", "PS512"}, "p256": {"ES256"}, "p384": {"ES384"}, "p521": {"ES512"}, "ed25519": {"EdDSA"}}
+	for kn, as := range sigAlgKeys {
+		k := keyByName(kn)
+		priv, pub := "jwk:"+hx(k.JWKPriv), "jwk:"+hx(k.JWKPub)
+		for _, alg := range as {
+			dl := map[string]int{"256": 32, "384": 48, "512": 64}[alg[len(alg)-3:]]
+			if dl == 0 {
+				dl = 32
+			}
+			dig := r.rnd.Bytes(dl)
+			sig, err := kitcrypto.SignPrivateKey(dig, alg, keySpec(priv))
+			if err != nil {
+				r.res.Disagree("harness-selfcheck", alg, "SignPrivateKey with the right key succeeds", err.Error())
+				continue
+			}
+			o := r.do(mk("crypto-verifypublickey", "alg", alg, "key", pub, "data", hx(dig), "sig", hx(sig)))
+			if o.Class != clsOK {
+				r.res.Disagree("harness-selfcheck", alg, "Verify(Sign(x)) succeeds", o.Class)
+			}
+			r.do(mk("crypto-verifypublickey", "alg", alg, "key", priv, "data", hx(dig), "sig", hx(sig)))
+			for i := 0; i < r.n(6); i++ {
+				r.do(mk("crypto-verifypublickey", "alg", alg, "key", pub, "data", hx(dig), "sig", hx(mutate(r.rnd, sig, []byte{0, 1, 0x30, 0x02, 0x80, 255}))))
+			}
+		}
 	}
 	// --- every algorithm x keys of every kind (right and wrong) ---
 	for _, alg := range algs {
